@@ -78,7 +78,14 @@ func splitEnh(line string) (enh, rest string, ok bool) {
 // every line must end in CRLF, contain no other CR or LF, start with three
 // digits (first 2..5) followed by '-' or ' ', and all lines of a reply must
 // carry the same code. The error says what is wrong and where.
-func ParseReplies(wire []byte) ([]Reply, error) {
+func ParseReplies(wire []byte) ([]Reply, error) { return parseReplies(wire, true) }
+
+// ParseRepliesLenient is ParseReplies without the check for stray CRs inside
+// a line (the server echoes parts of unrecognised commands; hostile input
+// checks do not judge that text).
+func ParseRepliesLenient(wire []byte) ([]Reply, error) { return parseReplies(wire, false) }
+
+func parseReplies(wire []byte, strict bool) ([]Reply, error) {
 	var out []Reply
 	pos := 0
 	var cur *Reply
@@ -97,7 +104,7 @@ func ParseReplies(wire []byte) ([]Reply, error) {
 			return out, fmt.Errorf("offset %d: line ends in bare LF: %q", pos, wire[pos:nl+1])
 		}
 		line := string(wire[pos : nl-1])
-		if strings.ContainsAny(line, "\r\n") {
+		if strict && strings.ContainsAny(line, "\r\n") {
 			return out, fmt.Errorf("offset %d: stray CR inside line %q", pos, line)
 		}
 		if len(line) < 3 || !isDigit(line[0]) || !isDigit(line[1]) || !isDigit(line[2]) {
